@@ -1064,6 +1064,10 @@ func (ro *RedisOutput) sendCmdsBatch(replayWait usync.WaitCloser, conn client.Re
 			batcher.Put("multi")
 		}
 
+		// database marked in cpInDbs by this attempt : unmarked again if the attempt fails, because a
+		// retry must carry the run id fields once more
+		markedCpDb, marked := 0, false
+
 		delayNs := int64(0)
 		for _, ce := range cmdQueue {
 			batcher.Put(ce.Cmd, ce.Args...)
@@ -1087,6 +1091,7 @@ func (ro *RedisOutput) sendCmdsBatch(replayWait usync.WaitCloser, conn client.Re
 				}
 				if _, ok := cpInDbs[cpDb]; !ok {
 					cpInDbs[cpDb] = struct{}{}
+					markedCpDb, marked = cpDb, true
 					batcher.Put("hset", checkpointKv.Key, checkpointKv.RunIdKey(), runId, checkpointKv.VersionKey(), config.Version)
 				}
 				batcher.Put("hset", checkpointKv.Key, checkpointKv.OffsetKey(), lastOffset)
@@ -1112,6 +1117,9 @@ func (ro *RedisOutput) sendCmdsBatch(replayWait usync.WaitCloser, conn client.Re
 		}
 
 		if err != nil {
+			if marked {
+				delete(cpInDbs, markedCpDb)
+			}
 			ro.logger.Errorf("exec error %v", err)
 			failCounter.Inc(ro.cfg.InputName)
 			batchSendCounter.Add(1, ro.cfg.InputName, transactionLabel, "error")
